@@ -440,6 +440,133 @@ theorem stop_members (rest : List (List Char × JDoc)) (k : List Char) :
   | nil => exact Or.inr ⟨k, Or.inr (Or.inr (by rw [printMembersK]))⟩
   | cons kd rest => obtain ⟨key, d⟩ := kd; exact Or.inr ⟨_, Or.inl (by rw [printMembersK])⟩
 
+mutual
+theorem parseValue_print : ∀ (d : JDoc) (fuel depth : Nat) (k : List Char),
+    need d ≤ fuel → depthOf d ≤ depth → Stop k → NumsOK P d →
+    parseValue fuel depth (printK P d k) = some (toValue d, k)
+  | .null, fuel, depth, k, hf, _, _, _ => by
+    obtain ⟨f, rfl⟩ : ∃ f, fuel = f + 1 := ⟨fuel - 1, by simp [need] at hf; omega⟩
+    simp [parseValue, printK, skipWs, isWs, toValue]
+  | .bool true, fuel, depth, k, hf, _, _, _ => by
+    obtain ⟨f, rfl⟩ : ∃ f, fuel = f + 1 := ⟨fuel - 1, by simp [need] at hf; omega⟩
+    simp [parseValue, printK, skipWs, isWs, toValue]
+  | .bool false, fuel, depth, k, hf, _, _, _ => by
+    obtain ⟨f, rfl⟩ : ∃ f, fuel = f + 1 := ⟨fuel - 1, by simp [need] at hf; omega⟩
+    simp [parseValue, printK, skipWs, isWs, toValue]
+  | .int i, fuel, depth, k, hf, _, hs, hn => by
+    obtain ⟨f, rfl⟩ : ∃ f, fuel = f + 1 := ⟨fuel - 1, by simp [need] at hf; omega⟩
+    obtain ⟨c, t, h1, h2⟩ := intText_head i
+    have hi : Value.inI64 i = true := hn
+    rw [printK]
+    have := parseNum_int i k hs hi
+    rw [h1] at this ⊢
+    rw [List.cons_append, parseValue_num f depth c (t ++ k) h2, ← List.cons_append, this, toValue]
+  | .num x, fuel, depth, k, hf, _, hs, hn => by
+    obtain ⟨f, rfl⟩ : ∃ f, fuel = f + 1 := ⟨fuel - 1, by simp [need] at hf; omega⟩
+    obtain ⟨hp, c, t, h1, h2⟩ := hn
+    have := hp k hs
+    rw [printK]
+    rw [h1] at this ⊢
+    rw [List.cons_append, parseValue_num f depth c (t ++ k) h2, ← List.cons_append, this, toValue]
+  | .str s, fuel, depth, k, hf, _, _, _ => by
+    obtain ⟨f, rfl⟩ : ∃ f, fuel = f + 1 := ⟨fuel - 1, by simp [need] at hf; omega⟩
+    have hlen := escK_length s ('"' :: k)
+    have := parseStr_esc s k [] ((escK s ('"' :: k)).length + 1) (by simp at hlen ⊢; omega)
+    simp [parseValue, printK, skipWs, isWs, toValue, this]
+  | .arr [], fuel, depth, k, hf, hd, _, _ => by
+    obtain ⟨f, rfl⟩ : ∃ f, fuel = f + 1 := ⟨fuel - 1, by simp [need] at hf; omega⟩
+    have hd0 : depth ≠ 0 := by simp [depthOf] at hd; omega
+    simp [parseValue, printK, skipWs, isWs, toValue, toValues, hd0]
+  | .arr (d :: ds), fuel, depth, k, hf, hd, _, hn => by
+    obtain ⟨f, rfl⟩ : ∃ f, fuel = f + 1 := ⟨fuel - 1, by simp [need] at hf; omega⟩
+    have hd0 : depth ≠ 0 := by simp [depthOf] at hd; omega
+    have hnl : NumsOKs P (d :: ds) := hn
+    obtain ⟨c, t, hc, hv⟩ := printK_head P d hnl.1 (printElemsK P ds (']' :: k))
+    obtain ⟨hws, hne, _, _⟩ := hv.facts
+    have ih := parseElems_print (d :: ds) f (depth - 1) k []
+      (by simp only [need] at hf; omega) (by simp only [depthOf] at hd; omega) hnl
+    rw [printK, parseValue]
+    simp only [skipWs, isWs, Bool.or_self, Bool.false_eq_true, if_false, hd0]
+    rw [hc, skipWs_of_not_ws c t hws]
+    rw [hc] at ih
+    split
+    · rename_i heq; injection heq with e1 _; exact absurd e1 hne
+    · simpa [toValue] using ih
+  | .obj [], fuel, depth, k, hf, hd, _, _ => by
+    obtain ⟨f, rfl⟩ : ∃ f, fuel = f + 1 := ⟨fuel - 1, by simp [need] at hf; omega⟩
+    have hd0 : depth ≠ 0 := by simp [depthOf] at hd; omega
+    simp [parseValue, printK, skipWs, isWs, toValue, toFields, hd0]
+  | .obj ((key, d) :: rest), fuel, depth, k, hf, hd, _, hn => by
+    obtain ⟨f, rfl⟩ : ∃ f, fuel = f + 1 := ⟨fuel - 1, by simp [need] at hf; omega⟩
+    have hd0 : depth ≠ 0 := by simp [depthOf] at hd; omega
+    have hnl : NumsOKm P ((key, d) :: rest) := hn
+    have ih := parseMembers_print ((key, d) :: rest) f (depth - 1) k []
+      (by simp only [need] at hf; omega) (by simp only [depthOf] at hd; omega) hnl
+    rw [printK, parseValue]
+    simp only [skipWs, isWs, Bool.or_self, Bool.false_eq_true, if_false, hd0]
+    simpa [toValue] using ih
+
+theorem parseElems_print : ∀ (l : List JDoc) (fuel depth : Nat) (k : List Char) (acc : List Value),
+    needElems l ≤ fuel → depthElems l ≤ depth → NumsOKs P l →
+    match l with
+    | [] => True
+    | d :: ds =>
+      parseElems fuel depth (printK P d (printElemsK P ds (']' :: k))) acc =
+        some (.arr (acc.reverse ++ toValues (d :: ds)), k)
+  | [], _, _, _, _, _, _, _ => trivial
+  | d :: ds, fuel, depth, k, acc, hf, hd, hn => by
+    obtain ⟨f, rfl⟩ : ∃ f, fuel = f + 1 := ⟨fuel - 1, by simp [needElems] at hf; omega⟩
+    have hv := parseValue_print d f depth (printElemsK P ds (']' :: k))
+      (by simp only [needElems] at hf; omega) (by simp only [depthElems] at hd; omega)
+      (stop_elems P ds k) hn.1
+    simp only
+    rw [parseElems, hv]
+    cases ds with
+    | nil => simp [printElemsK, skipWs, isWs, toValues]
+    | cons d' ds' =>
+      have ih := parseElems_print (d' :: ds') f depth k (toValue d :: acc)
+        (by simp only [needElems] at hf ⊢; omega) (by simp only [depthElems] at hd ⊢; omega) hn.2
+      simp only at ih
+      simp only [printElemsK, skipWs, isWs, Bool.or_self, Bool.false_eq_true, if_false]
+      rw [ih]
+      simp [toValues]
+
+theorem parseMembers_print : ∀ (l : List (List Char × JDoc)) (fuel depth : Nat) (k : List Char) (acc : Fields),
+    needMembers l ≤ fuel → depthMembers l ≤ depth → NumsOKm P l →
+    match l with
+    | [] => True
+    | (key, d) :: rest =>
+      parseMembers fuel depth
+        ('"' :: escK key ('"' :: ':' :: printK P d (printMembersK P rest ('}' :: k)))) acc =
+        some (.obj (toFields ((key, d) :: rest) acc), k)
+  | [], _, _, _, _, _, _, _ => trivial
+  | (key, d) :: rest, fuel, depth, k, acc, hf, hd, hn => by
+    obtain ⟨f, rfl⟩ : ∃ f, fuel = f + 1 := ⟨fuel - 1, by simp [needMembers] at hf; omega⟩
+    have hv := parseValue_print d f depth (printMembersK P rest ('}' :: k))
+      (by simp only [needMembers] at hf; omega) (by simp only [depthMembers] at hd; omega)
+      (stop_members P rest k) hn.1
+    have hlen := escK_length key ('"' :: ':' :: printK P d (printMembersK P rest ('}' :: k)))
+    have hstr := parseStr_esc key (':' :: printK P d (printMembersK P rest ('}' :: k))) []
+      ((escK key ('"' :: ':' :: printK P d (printMembersK P rest ('}' :: k)))).length + 1)
+      (by simp at hlen ⊢; omega)
+    simp only
+    rw [parseMembers]
+    simp only [skipWs, isWs, Bool.or_self, Bool.false_eq_true, if_false, hstr, List.nil_append, List.reverse_nil]
+    obtain ⟨c, t, hc, hvs⟩ := printK_head P d hn.1 (printMembersK P rest ('}' :: k))
+    rw [hv]
+    cases rest with
+    | nil => simp [printMembersK, skipWs, isWs, toFields]
+    | cons kd' rest' =>
+      obtain ⟨key', d'⟩ := kd'
+      have ih := parseMembers_print ((key', d') :: rest') f depth k
+        (Fields.put (String.ofList key) (toValue d) acc)
+        (by simp only [needMembers] at hf ⊢; omega) (by simp only [depthMembers] at hd ⊢; omega) hn.2
+      simp only at ih
+      simp only [printMembersK, skipWs, isWs, Bool.or_self, Bool.false_eq_true, if_false]
+      rw [ih]
+      simp [toFields]
+end
+
 end
 
 end Ag.C06
